@@ -1,4 +1,4 @@
-(* case: "C12 <tx|block> <caps> <valid points> <hex>"  ->  "ok size weight vsize dweight dvsize" | "ok size weight" | "err" *)
+(* case: "C12 <tx|block|blockrep> <caps> <valid points> <hex | header hex,count,tx hex>"  ->  "ok size weight vsize dweight dvsize" | "ok size weight" | "err" *)
 From Coq Require Import List NArith.
 From Coq.Strings Require Import Byte.
 From EV Require Import Base.Bytes Base.Codec Model.Tx Model.Block Model.Sizes Extract.RunUtil Extract.RunC01.
@@ -20,5 +20,22 @@ Definition run (args : list bytes) : bytes :=
             | Some b => "ok "%lb ++ join sp (map dec_of_N [block_size maxvec cv b; block_weight maxvec cv b])
             | None => "err"%lb end
           else err "type"
+      | Some (maxvec, ci, co, cv, ct), Some valid, None =>
+          (* "blockrep": <header hex>,<count>,<tx hex> — a block built IN MEMORY from `count` copies of one transaction (transaction counts beyond
+             what the decoder's allocation cap admits, e.g. exactly 0xFFFF, are reachable only this way) *)
+          let pt_ok := mem_bytes valid in
+          if bytes_eqb ty "blockrep"%lb then
+            match split_on x2c hx [] with
+            | [hh; cnt; th] =>
+                match hexarg hh, N_of_dec cnt, hexarg th with
+                | Some hb, Some n, Some tb =>
+                    match deserialize (c_header maxvec cv) hb, deserialize (c_tx pt_ok maxvec ci co cv) tb with
+                    | Some h, Some t =>
+                        let b := {| b_header := h; b_txs := repeat t (N.to_nat n) |} in
+                        "ok "%lb ++ join sp (map dec_of_N [block_size maxvec cv b; block_weight maxvec cv b])
+                    | _, _ => "err"%lb end
+                | _, _, _ => err "parse" end
+            | _ => err "parse" end
+          else err "parse"
       | _, _, _ => err "parse" end
   | _ => err "args" end.
